@@ -130,7 +130,8 @@ def crossratio(
     bc = det(np.stack([*o, b, c], axis=-2))
 
     with np.errstate(divide="ignore", invalid="ignore"):
-        return np.where(same, 1, ac * bd / (ad * bc))
+        # the quotients are formed first: the products ac * bd and ad * bc overflow for integer coordinates
+        return np.where(same, 1, (ac / ad) * (bd / bc))
 
 
 def harmonic_set(a: PointTensor, b: PointTensor, c: PointTensor) -> PointTensor:
